@@ -153,3 +153,16 @@ Proof.
       rewrite firstn_length. lia.
     + rewrite app_nil_r in P. auto.
 Qed.
+
+(* recreatePayload, as written, is the identity on the key |-> entry mapping: Cache.Cleanup with the map
+   rebuild (clean_cache_v repaired) is Cache.Cleanup with only the maxPayloadSize bookkeeping (clean_cache) *)
+Lemma rebuild_id c : forall es, map (rebuild_entry true c) es = es.
+Proof.
+  induction es; simpl; auto. rewrite IHes. unfold rebuild_entry. simpl. destruct (in_cache c a); auto.
+Qed.
+
+Lemma clean_cache_v_repaired c st : clean_cache_v repaired c st = clean_cache c st.
+Proof.
+  unfold clean_cache_v, clean_cache. simpl. rewrite rebuild_id.
+  destruct (_ || _); reflexivity.
+Qed.
